@@ -63,14 +63,14 @@ pub proof fn lemma_flat_empty<T>(md: Seq<Seq<T>>)
     if md.len() > 0 { lemma_flat_empty(md.drop_last()); }
 }
 
-//@invpart safe @C17 indices stay in range; handles are stored before they are used
+//@invpart safe @C17,C04 indices stay in range; handles are stored before they are used
 //@invpart seq @C09 members run strictly one after another: earlier ones completed, later ones untouched
 //@invpart proto @C01 greeting, link phases and the member cursor agree
 //@invpart term @C02 at most one termination per link
-//@invpart data @C09 the sink has received the members' data in member order
+//@invpart data @C09,C06 the sink has received the members' data in member order
 //@invpart fwd @C05 a member's error reaches the sink unchanged
-//@invpart carry @C09,C14 the flag records that the sink has pulled, so that an outstanding Pull is re-issued at every member boundary
-//@invpart pull @C14 demand conservation: the outstanding Pull is carried to the current member
+//@invpart carry @C09,C14,C06 the flag records that the sink has pulled, so that an outstanding Pull is re-issued at every member boundary
+//@invpart pull @C14,C06 demand conservation: the outstanding Pull is carried to the current member
 pub open spec fn cur<T>(h: Heap, g: G<T>) -> UpLink<T> { g.ups[h.i as int] }
 pub open spec fn inv_safe<T>(h: Heap, g: G<T>, c: Cap) -> bool {
     &&& cap_ok(c)
@@ -144,8 +144,8 @@ pub open spec fn upsrc_gate<T>(s: UpSrc, k: int, h: Heap, g: G<T>, c: Cap, m: Me
     if k == $GATE_LAZY { forall|j: int| 0 <= j < s.i && j < g.ups.len() ==> (#[trigger] g.ups[j]).phase == Up::EndedBySelf } else { true }
 }
 
-//@include env_dn.rs OP=concat TP=T G=G<T> GNAME=G HEAP=Heap O=T ORPHAN="forall|j: int| 0 <= j < g.ups.len() ==> (#[trigger] g.ups[j]).phase != Up::Live" QUIET="quiet(g)" SINKGATE=true
-//@include env_upn.rs OP=concat TP=T G=G<T> GNAME=G HEAP=Heap I=T
+//@include env_dn.rs OP=concat TP=T G=G<T> GNAME=G HEAP=Heap O=T ORPHAN="forall|j: int| 0 <= j < g.ups.len() ==> (#[trigger] g.ups[j]).phase != Up::Live" QUIET="quiet(g)" LITE=false SINKGATE=true
+//@include env_upn.rs OP=concat TP=T G=G<T> GNAME=G HEAP=Heap I=T LITE=false LATE=false
 
 /// the state in which `next` is entered: the cursor points at a member that is not subscribed yet
 pub open spec fn pre_next<T>(h: Heap, g: G<T>, c: Cap) -> bool {
